@@ -96,6 +96,18 @@ theorem readArray_int (fuel : Nat) (st : St) (m : Member) (len : Nat) (b : Bytes
   simp [readArray, h, hv]
   rfl
 
+theorem readArray_real (fuel : Nat) (st : St) (m : Member) (len : Nat) (b : Bytes)
+    (h : Havok.baseType m.ty = 3) : readArray (fuel + 1) st m len b = readMany readRealV len st b := by
+  simp [readArray, h]
+
+theorem readArray_vec (fuel : Nat) (st : St) (m : Member) (len : Nat) (b : Bytes)
+    (h : 4 ≤ Havok.baseType m.ty ∧ Havok.baseType m.ty ≤ 7) :
+    readArray (fuel + 1) st m len b = readMany (readVecV (Spec.HavokTag.vecSize (Havok.baseType m.ty))) len st b := by
+  obtain ⟨h4, h7⟩ := h
+  have hcases : Havok.baseType m.ty = 4 ∨ Havok.baseType m.ty = 5 ∨ Havok.baseType m.ty = 6 ∨
+      Havok.baseType m.ty = 7 := by omega
+  rcases hcases with h | h | h | h <;> simp [readArray, h, isVecBase, vecSize, Spec.HavokTag.vecSize]
+
 theorem readArray_vec12 (fuel : Nat) (st : St) (m : Member) (len : Nat) (b : Bytes)
     (h : Havok.baseType m.ty = 6) : readArray (fuel + 1) st m len b = readMany (readVecV 12) len st b := by
   simp [readArray, h, isVecBase, vecSize]
